@@ -9,7 +9,7 @@ def run(ck):
                       "index path per level (white-box); the harness checks comparator argument order and user data; non-trivial = distinct history")
     ck.assumptions += ["the search comparator is compatible with the tree order (monotone; wildcard v/16)"]
     if not ck.build_driver(): return
-    if not ck.prove():
+    if not ck.prove(["ZixModel.Properties.C02", "ZixModel.Properties.C01Remove"]):
         ck.report_proof_failure("theorems about B-tree positional queries no longer build")
     cfgs = bc.build(ck, pages=[p for p in bc.PAGES if p[0] <= 256])
     if not cfgs: return
